@@ -127,10 +127,15 @@ func vGenRepoC03(t *rapid.T, g vRepoGenC03) *vRepoC03 {
 	}
 	dup := g.AllowDup && rapid.IntRange(0, 3).Draw(t, "dup") == 0
 	twoKeys := g.AllowTwoKeys && rapid.IntRange(0, 2).Draw(t, "twokeys") == 0
-	multi := g.AllowMultiBlob && rapid.IntRange(0, 9).Draw(t, "multiblob") == 0
+	multi := g.AllowMultiBlob && rapid.IntRange(0, 5).Draw(t, "multiblob") == 0
 	if multi {
 		// larger than twice the minimum chunk size: at least two data blobs
 		trees[0]["big.bin"] = &vNode{Kind: 'f', Seed: rapid.Uint64Range(1000, 1<<40).Draw(t, "bigseed"), Len: 1100000 + rapid.IntRange(0, 200000).Draw(t, "biglen"), Mode: 0o644, Mtime: 1600000000e9}
+		if rapid.Bool().Draw(t, "repeatedblob") {
+			// all zero: the chunker cuts at the 512 KiB minimum, the content list repeats ONE blob id 2-4 times
+			trees[0]["big.bin"].Zeros = true
+			trees[0]["big.bin"].Len = rapid.IntRange(2, 4).Draw(t, "zeroChunks")*512*1024 + rapid.IntRange(0, 3000).Draw(t, "zeroTail")
+		}
 	}
 	r, err := vBuildRepoC03(version, comp, trees, dup, twoKeys)
 	if err != nil {
